@@ -262,13 +262,7 @@ def _ast_to_schema(ck, repo):
                             ("tartiflette/types/union.py", "GraphQLUnionTypeExtension", {"directives": "directives", "types": "types"})):
         b = repo.func(rel, f"{cls}.bake")
         bv = FuncView(b)
-        merged = {}
-        for c in bv.calls(["extend", "update"]):
-            tgt = unparse(c.func.value)
-            src = unparse(c.args[0]) if c.args else ""
-            if tgt.startswith("extended.") or "." in tgt:
-                merged[src.replace("self.", "")] = tgt.split(".", 1)[1]
-        ck.ob(f"{cls}.bake merges {sorted(parts)} into the extended type", merged == parts, b, b.node, construct=f"extension:{cls}:merges", detail=f"merged {merged}")
+        _extension_merge_terms(ck, repo, b, cls, parts)
         ft = bv.maybe_call("find_type")
         ck.ob(f"{cls}.bake extends the type of the same name", ft is not None and [unparse(a) for a in ft.args] == ["self.name"], b, ft or b.node, construct=f"extension:{cls}:target")
     # contradiction rule: an attribute defaulted to a list cannot be merged with dict methods (and vice versa)
@@ -666,3 +660,45 @@ def _introspection_roots(ck, repo, part):
                   detail=f"returns {unparse(r['ret']) if r['ret'] is not None else None}, stores {stores}")
         ck.ob(f"{fn}: has a refusing and an answering path", seen["refuse"] >= 1 and seen["answer"] >= 1 and (fn == "__schema_resolver" or seen["unknown"] >= 1), f, f.node,
               construct=f"{fn}:paths", detail=str(seen))
+
+
+def _extension_merge_terms(ck, repo, b, cls, parts):
+    """E13: `<Extension>.bake` interpreted on an abstract extension and an abstract extended type: afterwards every member list
+    of the extended type is what it was followed by the extension's members, in order (mappings: with the extension's
+    entries added), and nothing else of it changed - however the merge is written (extend/update, loops, bound methods)."""
+    from .. import absint
+    from ..absint import RecV, Sym, LambdaV, Env
+    dict_targets = {"implemented_fields", "input_fields"}
+    ext_attrs, old, want = {}, {}, {}
+    for src, tgt in parts.items():
+        if tgt in dict_targets:
+            ext_attrs[src] = {f"{src}_k1": Sym(f"{src}_v1"), f"{src}_k2": Sym(f"{src}_v2")}
+            old[tgt] = {f"{tgt}_old": Sym(f"{tgt}_old_v")}
+            want[tgt] = {**old[tgt], **ext_attrs[src]}
+        else:
+            ext_attrs[src] = [Sym(f"{src}_1"), Sym(f"{src}_2")]
+            old[tgt] = [Sym(f"{tgt}_old")]
+            want[tgt] = old[tgt] + ext_attrs[src]
+    for empty in (False, True):
+        ea = {k: (type(v)() if empty else (dict(v) if isinstance(v, dict) else list(v))) for k, v in ext_attrs.items()}
+        ext = RecV(cls, name="X", _strict=True, **ea)
+        extended = RecV("Extended", _strict=True, **{k: (dict(v) if isinstance(v, dict) else list(v)) for k, v in old.items()})
+        other = RecV("Other", _strict=True, **{k: (dict(v) if isinstance(v, dict) else list(v)) for k, v in old.items()})
+        env = Env()
+        env.vars["_types"] = {"X": extended, "Y": other}
+        lookup = LambdaV(ast.parse("lambda name: _types[name]", mode="eval").body, env)
+        schema = RecV("GraphQLSchema", find_type=lookup, _strict=True)
+        it = absint.Interp(repo, b.module, classes={cls: repo.cls(b.module.relpath, cls)})
+        try:
+            it.run(b, [ext, schema])
+            why = None
+        except absint.Unsupported as ex:
+            raise AnalysisError(f"{b.short}: cannot be interpreted on an abstract extension: {ex}")
+        except absint.PyRaise as ex:
+            why = f"raises {ex.name} ({ex.text})"
+        exp = old if empty else want
+        got = {k: extended.attrs.get(k) for k in exp}
+        ok = why is None and all(absint.norm(got[k]) == absint.norm(exp[k]) and (not isinstance(exp[k], dict) or list(got[k]) == list(exp[k])) for k in exp) and \
+            all(absint.norm(other.attrs[k]) == absint.norm(old[k]) for k in old) and set(extended.attrs) - {"_strict"} == set(old)
+        ck.ob(f"{cls}.bake merges {sorted(parts)} into the extended type" + (" (an empty extension changes nothing)" if empty else ""), ok, b, b.node,
+              construct=f"extension:{cls}:merges" + (":empty" if empty else ""), detail=why or f"extended type afterwards: {got}")
